@@ -234,7 +234,10 @@ def judge_ladder(o: Outcome, c, ob):
         why = (f"expand() raised {ob['exc']} on the nesting ladder [{name}]: the nesting was not stopped by the depth limit "
                "(specification: recursion is cut at the limit whatever is nested, with the in-band 'too deep recursion' error element and a recorded error)")
         # explained by the as-is design only where that design lets the recursion leave the bounded region
-        o.classify(case, why, [DEV_NESTING] if c["asis_overrun"] else [], cls="exception-nesting")
+        if c["asis_overrun"]:
+            o.classify(case, why, [DEV_NESTING], cls="exception-uncounted-nesting")
+        else:
+            o.violation(case, why, cls="exception-nesting")
         return
     if not isinstance(ob["out"], str):
         o.violation(case, "expand() did not return a string", cls="type")
